@@ -270,7 +270,11 @@ def driver_available():
     return os.path.exists(DRIVER)
 
 
-def run_driver(lines, tag="drv"):
+class DriverTimeout(Exception):
+    """the compiled Lean driver did not finish within the time allowed for this batch"""
+
+
+def run_driver(lines, tag="drv", timeout=3000):
     """send JSON-able dicts, get parsed dicts back (batch)."""
     if not lines:
         return []
@@ -282,7 +286,11 @@ def run_driver(lines, tag="drv"):
             f.write(json.dumps(l, ensure_ascii=False, separators=(",", ":")))
             f.write("\n")
     with open(inp, "rb") as fin:
-        p = subprocess.run([DRIVER], stdin=fin, capture_output=True, timeout=3000)
+        try:
+            p = subprocess.run([DRIVER], stdin=fin, capture_output=True, timeout=timeout)
+        except subprocess.TimeoutExpired:
+            os.unlink(inp)
+            raise DriverTimeout("driver batch %s did not finish in %d s" % (tag, timeout))
     os.unlink(inp)
     outs = [l for l in p.stdout.decode("utf-8").split("\n") if l]
     if p.returncode != 0 or len(outs) != len(lines):
